@@ -68,6 +68,14 @@ CHECKS = {
          "_compute_abcd and compute_from_obs_fcst (undefined must be NaN, never infinite).",
     technique="TLA+ spec (Metrics.tla Table/Cat) model-checked with TLC; all small tables and pair vectors replayed into verif.metric.Contingency classes",
     ref="6/C06"),
+ "C15": dict(
+    text="Aggregators.tla gives the 14 -agg/-Tagg statistics and quantile levels as exact rationals (std as an expression tree) with "
+         "order lemmas, and the -T trailing window (g-h, g] by grid value with window lemmas; TLC enumerates vectors with ties and missing "
+         "values, 3-d arrays along every dimension, and every lead-time grid drawn from {0,1,2,3,5,8} in increasing and permuted file order "
+         "x window length x aggregator; replayed into verif.aggregator.get(name)(array, axis), preaggregate_leadtime / preaggregate_time "
+         "and, end to end, Data(dim_agg_length=..) for observations and forecasts alike.",
+    technique="TLA+ spec (Aggregators.tla) model-checked with TLC; enumerated vectors/arrays/grids replayed into verif.aggregator and verif.data pre-aggregation",
+    ref="6/C15"),
  "C18": dict(
     text="DataImpl.tla models Data.get_scores as the code has it (heap of mutable arrays, per-input field cache handed out without "
          "copying, request cache, observation sharing by aliasing, in-place propagation and -obsrange); TLC checks that it refines "
